@@ -25,6 +25,8 @@ from dataclasses import dataclass, field
 VERIF = os.path.dirname(os.path.dirname(os.path.dirname(os.path.abspath(__file__))))
 REPO = os.environ.get("VERIF_REPO", "/repo")
 HARNESS = os.path.join(VERIF, "harness")
+# seeded-change runs redirect evidence and replay files so that the committed evidence always describes /repo itself
+OUT = os.environ.get("VERIF_OUT", VERIF)
 GUARD = "LIBCOAP_VERIF"
 
 STD_FLAGS = [
@@ -607,7 +609,7 @@ def run_job_inner(ctx, job):
 
 
 def write_replay_file(prop, res):
-    d = os.path.join(VERIF, "replays")
+    d = os.path.join(OUT, "replays")
     os.makedirs(d, exist_ok=True)
     path = os.path.join(d, "%s-%s.json" % (prop, re.sub(r"[^A-Za-z0-9_.-]", "_", res["job"])))
     rp = res.get("replay", {})
@@ -719,7 +721,7 @@ def run_check(prop, tier, jobs, meta, jobfilter=None, keep=False, workers=None):
 
 
 def write_evidence(prop, tier, seed, results, meta, wall, nviol, ctx):
-    os.makedirs(os.path.join(VERIF, "evidence"), exist_ok=True)
+    os.makedirs(os.path.join(OUT, "evidence"), exist_ok=True)
     decided = [r for r in results if r["verdict"] in ("pass", "known-finding", "fail")]
     queries = sum(1 + (1 if "twin" in r else 0) + (1 if r["verdict"] in ("fail", "known-finding") else 0) for r in decided)
     hasserts = set()
@@ -767,4 +769,4 @@ def write_evidence(prop, tier, seed, results, meta, wall, nviol, ctx):
     }
     if ev["coverage"]["evaluations"] < 1:
         ev["coverage"]["evaluations"] = 0
-    json.dump(ev, open(os.path.join(VERIF, "evidence", prop + ".json"), "w"), indent=1)
+    json.dump(ev, open(os.path.join(OUT, "evidence", prop + ".json"), "w"), indent=1)
